@@ -138,10 +138,11 @@ class Machine:
         s.const_cache={}
         s.stats={'stmts':0,'paths':0,'forks':0}; s.verbose=False
     # ---------------- solver
+    qtimeout=600
     def feasible(s,pc,extra):
-        t=time.time(); sv=z3.Solver(); sv.add(*pc); sv.add(extra); r=sv.check(); s.nq+=1; s.qtime+=time.time()-t
+        t=time.time(); sv=z3.Solver(); sv.set('timeout',int(s.qtimeout*1000)); sv.add(*pc); sv.add(extra); r=sv.check(); s.nq+=1; s.qtime+=time.time()-t
         if s.verbose: print('  query',s.nq,r,round(time.time()-t,2),flush=True)
-        if r==z3.unknown: raise Unsupported('solver unknown')
+        if r==z3.unknown: raise Unsupported(f'solver unknown on a feasibility query after {time.time()-t:.0f}s')
         return r==z3.sat
     # ---------------- places
     def parse_place(s,t):
@@ -260,6 +261,8 @@ def parse_const(M,t,tyhint=None):
     if t.startswith('"'):
         raw=bytes(eval('b'+t) if all(ord(ch)<128 for ch in t) else eval(t).encode())
         return Str([Int(x,8) for x in raw])
+    mm=re.match(r'^(?:ZeroSized: )?(\{closure@[^}]*\})$',t)
+    if mm: return Agg(mm.group(1),[])          # capture-less closure value: keep its identity
     if t.startswith('ZeroSized:') or t.startswith('{closure') or t.startswith('BuildHasherDefault::<'): return Unit()
     mm=re.fullmatch(r'core::num::<impl ([iu]\d+|[iu]size)>::(MAX|MIN)',t)
     if mm:
@@ -546,6 +549,11 @@ def run(M,st0,limit=10**10,on_call=None):
                     rv=act[1]; st.frames.pop(); caller=st.frames[-1]
                     if isinstance(caller,Native): caller.pending=rv; continue
                     c,pa=M.resolve(caller,fr.dest); setp(c,pa,rv); caller.bb=fr.retbb; caller.ip=0; continue
+                if fr.ip==0 and M.cut is not None and fr.bb==M.cut[1] and fr.fn.name==M.cut[0]:
+                    fr.headvisits=getattr(fr,'headvisits',0)+1
+                    if fr.headvisits>=2:
+                        # second arrival at the designated loop head: do not unroll; hand the state back (induction)
+                        st.result=('CUT',copy.deepcopy(deref(fr.loc[1].v))); done.append(st); break
                 blk=fr.fn.blocks[fr.bb]
                 s=blk[fr.ip]; fr.ip+=1; M.stats['stmts']+=1
                 if M.stats['stmts']>limit: raise Unsupported('step limit')
@@ -592,7 +600,16 @@ def run(M,st0,limit=10**10,on_call=None):
                         cnd=zv==z3.BitVecVal(int(a),bits); conds.append((cnd,b)); others.append(z3.Not(cnd))
                     ow=[b for a,b in targets if a=='otherwise']
                     if ow: conds.append((z3.And(*others) if others else z3.BoolVal(True),ow[0]))
-                    feas=[(c,b) for c,b in conds if M.feasible(st.pc,c)]
+                    if len(conds)>2:
+                        # multiway switch: one incremental solver for all targets (pure bit-vector conditions in practice)
+                        t0=time.time(); sv=z3.Solver(); sv.set('timeout',int(M.qtimeout*1000)); sv.add(*st.pc); feas=[]
+                        for c,b in conds:
+                            sv.push(); sv.add(c); r_=sv.check(); sv.pop(); M.nq+=1
+                            if r_==z3.unknown: raise Unsupported('solver unknown on a switch target')
+                            if r_==z3.sat: feas.append((c,b))
+                        M.qtime+=time.time()-t0
+                    else:
+                        feas=[(c,b) for c,b in conds if M.feasible(st.pc,c)]
                     if not feas: raise PathEnd()
                     M.stats['forks']+=len(feas)-1
                     for c,b in feas[1:]:
@@ -604,11 +621,13 @@ def run(M,st0,limit=10**10,on_call=None):
                     v=operand(M,fr,cond_t); ok=z3.Not(v.z()) if neg else v.z()
                     ok=z3.simplify(ok)
                     if z3.is_true(ok): fr.bb=int(m.group(4)); fr.ip=0; continue
-                    if not z3.is_false(ok) and M.feasible(st.pc,z3.Not(ok)):
-                        n=st.clone(); n.pc.append(z3.Not(ok)); n.result=('PANIC',msg,fr.fn.name); done.append(n)
                     if z3.is_false(ok) : raise Panic(msg)
-                    if not M.feasible(st.pc,ok): raise PathEnd()
-                    st.pc.append(ok); fr.bb=int(m.group(4)); fr.ip=0; continue
+                    if M.feasible(st.pc,z3.Not(ok)):
+                        n=st.clone(); n.pc.append(z3.Not(ok)); n.result=('PANIC',msg,fr.fn.name); done.append(n)
+                        if not M.feasible(st.pc,ok): raise PathEnd()
+                        st.pc.append(ok)
+                    # else: the assertion cannot fail on this (feasible) path, so success is feasible and adds no information
+                    fr.bb=int(m.group(4)); fr.ip=0; continue
                 m=re.match(r'^drop\(.*\) -> \[return: bb(\d+).*\]$',s)
                 if m: fr.bb=int(m.group(1)); fr.ip=0; continue
                 # call
@@ -710,19 +729,22 @@ class Drain(Native):
         if s.then=='vec': return ('ret',PyObj('vec',items=s.out))
         raise Unsupported(s.then)
 class AllNF(Native):
+    """Iterator::all / Iterator::any driver (short-circuiting, forks on a symbolic predicate result)"""
+    any=False
     def __init__(s,items,clo): s.items=items; s.i=0; s.clo=clo; s.state='idle'
     def step(s,M,st):
+        stop=s.any          # the predicate value that ends the scan: false for all(), true for any()
         while True:
             if s.state=='wait':
                 r=s.pending; s.state='idle'
                 if r.conc():
-                    if not r.v: return ('ret',Bool(False))
+                    if r.v==stop: return ('ret',Bool(stop))
                 else:
                     s.state='branched'; return ('branch',r.v)
             elif s.state=='branched':
                 s.state='idle'
-                if not s.taken: return ('ret',Bool(False))
-            if s.i>=len(s.items): return ('ret',Bool(True))
+                if s.taken==stop: return ('ret',Bool(stop))
+            if s.i>=len(s.items): return ('ret',Bool(not stop))
             x=s.items[s.i]; s.i+=1
             f=M.by_closure[re.search(r'\{closure@([^}]*)\}',s.clo.name).group(1)]
             s.state='wait'; return ('call',f,[Ref(Cell('clo',s.clo),[]),x])
@@ -847,7 +869,14 @@ def call_model(M,st,fr,callee,args):
     # ---- Vec / slices / arrays
     if re.match(r'^Vec::<.*>::new$',c): return PyObj('vec',items=[])
     if re.match(r'^Vec::<.*>::push$',c): deref(args[0]).items.append(args[1]); return Unit()
-    if re.match(r'^Vec::<.*>::len$',c): return Int(len(deref(args[0]).items),64)
+    if re.match(r'^Vec::<.*>::len$',c):
+        v=deref(args[0])
+        if v.kind=='symvec': return v.length
+        return Int(len(v.items),64)
+    if re.match(r'^Vec::<.*>::is_empty$',c):
+        v=deref(args[0])
+        if v.kind=='symvec': return mkbool(v.length.z()==0)
+        return Bool(len(v.items)==0)
     m=re.match(r'^<\[(.*); (\d+)\] as Index<std::ops::(Range|RangeInclusive)<usize>>>::index$',c)
     if m:
         arr=deref(args[0]); r=args[1]
@@ -913,9 +942,9 @@ def call_model(M,st,fr,callee,args):
     if m:
         if args[0].var=='None': return Bool(False)
         return Redirect(M.by_closure[m.group(1)],[args[1],args[0].f[0]])
-    m=re.match(r'^<std::vec::IntoIter<.*> as Iterator>::all::<',c)
+    m=re.match(r'^<(std::vec::IntoIter<.*>|std::slice::Iter<.*>) as Iterator>::(all|any)::<',c)
     if m:
-        it=deref(args[0]); return AllNF(list(it.items[it.pos:]),args[1])
+        it=deref(args[0]); nf=AllNF(list(it.items[it.pos:]),args[1]); nf.any=(m.group(2)=='any'); it.pos=len(it.items); return nf
     if c in('<&f32 as PartialEq>::eq','<&f32 as PartialEq>::ne','<f32 as PartialEq>::eq'):
         a,b=deref(args[0]),deref(args[1]); r=z3.fpEQ(a.v,b.v); return mkbool(r if c.endswith('eq') else z3.Not(r))
     if re.match(r'^<Vec<.*> as (Deref|DerefMut)>::(deref|deref_mut)$',c): return args[0]
@@ -955,7 +984,12 @@ def call_model(M,st,fr,callee,args):
     if m:
         r=args[0]
         while isinstance(getp(r.cell,r.path),Ref): r=getp(r.cell,r.path)
-        v=getp(r.cell,r.path); n=len(items(v)); ix=args[1]
+        v=getp(r.cell,r.path); ix=args[1]
+        if isinstance(v,PyObj) and v.kind=='symvec':
+            # symbolic-length vector whose elements are uninterpreted functions of the index (read-only)
+            inb=z3.ULT(ix.z(),v.length.z()); el=v.reader(st,ix)
+            return Forks([(inb,Ref(Cell('symvec_el',el),[])),(z3.Not(inb),Panic('index out of bounds: the len is symbolic'))])
+        n=len(items(v))
         ref=Ref(r.cell,list(r.path)+[('i',ix)])
         if ix.conc():
             if ix.v>=n: raise Panic(f'index out of bounds: the len is {n} but the index is {ix.v}')
@@ -1118,22 +1152,43 @@ def call_model(M,st,fr,callee,args):
             dead=z3.Or(dead,z3.UGE(x,128)); q=z3.simplify(nq)
         acc=z3.Or(*[q==s for s in range(nst) if rx.a[s]]) if any(rx.a) else z3.BoolVal(False)
         return mkbool(z3.And(z3.Not(dead),acc))
-    # ---- f32 text (S3, prototype: [01](.d{1,3})? exact)
+    # ---- f32 text (S3)
     if c=='<f32 as FromStr>::from_str':
         b=deref(args[0]).b; n=len(b)
         if n==1 and is_num(b[0]): return ok(Flt(b[0][1]))       # S4: from_str(NUM(w)) == w
         if has_num(b): return err(Unit())
         if n==0: return err(Unit())
-        if not(n==1 or 3<=n<=5): raise Unsupported('f32 text length')
-        m_=z3.ZeroExt(24,b[0].z())-48; scale=1
-        for by in b[2:]: m_=m_*10+(z3.ZeroExt(24,by.z())-48); scale*=10
-        val=z3.fpDiv(RNE,z3.fpUnsignedToFP(RNE,m_,F32),z3.FPVal(float(scale),F32))
-        return ok(Flt(val))
+        D=lambda x: z3.And(z3.UGE(x.z(),48),z3.ULE(x.z(),57))
+        if n==1: simple=D(b[0])
+        elif n==2: simple=z3.BoolVal(False)      # "d." / ".d" / "dd": outside the modelled grammar
+        else: simple=z3.And(D(b[0]),b[1].z()==46,*[D(x) for x in b[2:]])
+        def val(digs):
+            m_=z3.BitVecVal(0,32); scale=1
+            for k,by in enumerate(digs):
+                m_=m_*10+(z3.ZeroExt(24,by.z())-48)
+                if k>0: scale*=10
+            return m_,scale
+        digs=[b[0]]+list(b[2:])
+        if len(digs)<=7:
+            m_,scale=val(digs)
+            exact=z3.fpDiv(RNE,z3.fpUnsignedToFP(RNE,m_,F32),z3.FPVal(float(scale),F32))
+            okv=ok(Flt(exact)); extra=[]
+        else:
+            # more than 7 significant digits: any value between the parses of the 7-digit truncation and its successor (monotonicity of correct rounding)
+            m_,scale=val(digs[:7])
+            lo=z3.fpDiv(RNE,z3.fpUnsignedToFP(RNE,m_,F32),z3.FPVal(float(scale),F32))
+            hi=z3.fpDiv(RNE,z3.fpUnsignedToFP(RNE,m_+1,F32),z3.FPVal(float(scale),F32))
+            v=z3.FP(f'f32parse{M.fresh()}',F32); okv=ok(Flt(v)); extra=[z3.fpLEQ(lo,v),z3.fpLEQ(v,hi)]
+        # any other text: f32::from_str never panics; its result is left unconstrained (Ok(any) or Err)
+        anyv=z3.FP(f'f32any{M.fresh()}',F32)
+        alts=[(z3.And(simple,*extra) if extra else simple,okv),(z3.Not(simple),err(Unit())),(z3.Not(simple),ok(Flt(anyv)))]
+        return Forks(alts)
     raise Unsupported('no model for '+c)
 def deref_once(v): return getp(v.cell,v.path) if isinstance(v,Ref) else v
 Machine.call_model=call_model
 Machine.overrides={}
 Machine.fmt_hooks={}
+Machine.cut=None
 _fresh=[0]
 def _f(s): _fresh[0]+=1; return _fresh[0]
 Machine.fresh=_f
